@@ -62,6 +62,23 @@ def check_all(verbose=True):
     return out
 
 
+FIXED = {"KF-C19-RAT-run-overshoot", "KF-C19-MGE-early-terminator", "KF-C19-MGE-tokens-after-full", "KF-C19-MAX-short-rows",
+         "KF-C19-PIX-non-square-size", "KF-C19-CM3-line-count", "KF-C19-VEF-image-data-of-the-wrong-length"}
+
+
+def verdict(results):
+    """open findings must still reproduce on the real code; witnesses of repaired defects must no longer fail silently"""
+    bad = []
+    for fid, (fails, why, outcome) in results.items():
+        if fid in FIXED and fails:
+            bad.append("%s: repaired defect is back (%s)" % (fid, why))
+        if fid not in FIXED and not fails:
+            bad.append("%s: recorded finding does not reproduce any more (%s)" % (fid, why))
+    return bad
+
+
 if __name__ == "__main__":
     r = check_all()
-    sys.exit(0 if all(v[0] for v in r.values()) else 1)
+    b = verdict(r)
+    print("\n".join(b) or "open findings reproduce; repaired ones stay repaired")
+    sys.exit(1 if b else 0)
